@@ -3611,9 +3611,10 @@ HT_UniversalSinkKeyValueRef
 status_t
 HashtableMid<KeyType,ValueType,HashFunctorType,SubclassType>::PutBefore(HT_SinkKeyParam key, HT_SinkKeyParam placeBeforeMe, HT_SinkValueParam v)
 {
+   const KeyType pbm(placeBeforeMe);  // copy it, in case (placeBeforeMe) refers to a key inside this table and PutAux() has to reallocate the table's array
    HashtableEntryBaseType * e = PutAux(this->ComputeHash(key), HT_ForwardKey(key), HT_ForwardValue(v), NULL, NULL);
    if (e == NULL) return B_OUT_OF_MEMORY;
-   HashtableEntryBaseType * f = this->GetEntry(this->ComputeHash(placeBeforeMe), placeBeforeMe);
+   HashtableEntryBaseType * f = this->GetEntry(this->ComputeHash(pbm), pbm);
    if ((f)&&(e != f)) this->MoveToBeforeAux(e, f);
    return B_NO_ERROR;
 }
@@ -3623,9 +3624,10 @@ HT_UniversalSinkKeyValueRef
 status_t
 HashtableMid<KeyType,ValueType,HashFunctorType,SubclassType>::PutBehind(HT_SinkKeyParam key, HT_SinkKeyParam placeBehindMe, HT_SinkValueParam v)
 {
+   const KeyType pbm(placeBehindMe);  // copy it, in case (placeBehindMe) refers to a key inside this table and PutAux() has to reallocate the table's array
    HashtableEntryBaseType * e = PutAux(this->ComputeHash(key), HT_ForwardKey(key), HT_ForwardValue(v), NULL, NULL);
    if (e == NULL) return B_OUT_OF_MEMORY;
-   HashtableEntryBaseType * d = this->GetEntry(this->ComputeHash(placeBehindMe), placeBehindMe);
+   HashtableEntryBaseType * d = this->GetEntry(this->ComputeHash(pbm), pbm);
    if ((d)&&(e != d)) this->MoveToBehindAux(e, d);
    return B_NO_ERROR;
 }
